@@ -117,6 +117,7 @@ Definition step (st : lstate) (l : label) : lstate :=
   match l with
   | Start w =>
       if known st w then st
+      else if target st <=? 0 then set_refused st (w :: refused st)     (* __aenter__ refuses at once *)
       else if locked st
       then upd_sem st (value st) (waiters st ++ [(w, Pending)])         (* acquire: queue a future *)
       else retarget (upd_sem st (value st - 1) (waiters st)) w          (* acquire without waiting *)
